@@ -44,6 +44,18 @@ Definition lm_append (arrs : marrays) (l : lm) (k : str) (v : val) (newcap : nat
 Definition lm_build (arrs : marrays) (size : nat) (es : list entry) : marrays * lm :=
   fold_left (fun st e => lm_append (fst st) (snd st) (fst e) (snd e) 0) es (lm_new arrs size).
 
+(* a builder script with ARBITRARY growth decisions: New(size), then any sequence of Append, each with the capacity
+   the runtime chooses should it have to allocate (lm_build is the script in which every choice is minimal) *)
+Inductive mbstep := MBAppend (k : str) (v : val) (c : nat).
+Arguments MBAppend k v%Z c%nat.
+
+Definition mbstep_run (st : marrays * lm) (b : mbstep) : marrays * lm :=
+  match b with MBAppend k v c => lm_append (fst st) (snd st) k v c end.
+Definition lm_script (arrs : marrays) (size : nat) (script : list mbstep) : marrays * lm :=
+  fold_left mbstep_run script (lm_new arrs size).
+Definition script_entries (script : list mbstep) : list entry :=
+  map (fun b => match b with MBAppend k v _ => (k, v) end) script.
+
 (* ------------------------------------------------------------------ map storages *)
 
 Inductive mstore :=
@@ -107,8 +119,10 @@ Inductive mop :=
 | MReplace (a : nat) (k : str) (v : val) (* replace(m->{k:v}) *)
 | MMapV (a : nat) (d : Z)                (* map((k,v)->v+d): builder *)
 | MAccept (a : nat) (d : Z)              (* accept((k,v)->v<d): builder *)
-| MEval (a : nat).                       (* eval(): RealMap *)
+| MEval (a : nat)                        (* eval(): RealMap *)
+| MScript (size : nat) (script : list mbstep).  (* any builder: New(size) + Appends with arbitrary growth *)
 Arguments MLitN size%nat es.
+Arguments MScript size%nat script.
 Arguments MPut a%nat k v%Z.
 Arguments MMerge a%nat b%nat.
 Arguments MReplace a%nat k v%Z.
@@ -128,6 +142,7 @@ Definition mstep (h : mheap) (o : mop) : mheap :=
   match o with
   | MLit es => let '(arrs', l) := lm_build arrs (length es) es in add_map h arrs' (SList l)
   | MLitN size es => let '(arrs', l) := lm_build arrs size es in add_map h arrs' (SList l)
+  | MScript size script => let '(arrs', l) := lm_script arrs size script in add_map h arrs' (SList l)
   | MPut a k v =>
       match get_map h a with
       | Some m => if has_key arrs m k then h else add_map h arrs (SAppend k v m)
@@ -206,6 +221,7 @@ Definition mpstep (ps : mpstate) (o : mop) : mpstate :=
   match o with
   | MLit es => ps ++ [sort_entries (pl_build es)]
   | MLitN _ es => ps ++ [sort_entries (pl_build es)]
+  | MScript _ script => ps ++ [sort_entries (pl_build (script_entries script))]
   | MPut a k v => if have a && negb (phas (get a) k) then ps ++ [sort_entries ((k, v) :: get a)] else ps
   | MMerge a b => if have a && have b && negb (existsb (fun e => phas (get a) (fst e)) (get b))
                   then ps ++ [sort_entries (get a ++ get b)] else ps
